@@ -324,7 +324,7 @@ pub fn case(c: &Case, obs: &mut Obs) -> PResult {
     check(c, cz.c, cz.dc, obs)
 }
 
-pub const GRID_LEVELS: [f64; 12] = [1e-12, 1e-8, 1e-5, 0.001, 0.3, 0.5, 0.8, 0.9, 0.95, 0.99, 0.9999, 0.99999999];
+pub const GRID_LEVELS: [f64; 14] = [1e-300, 1e-17, 1e-12, 1e-8, 1e-5, 0.001, 0.3, 0.5, 0.8, 0.9, 0.95, 0.99, 0.9999, 0.99999999];
 
 fn big_nk() -> impl Strategy<Value = (u64, u64)> {
     let n = prop_oneof![
@@ -348,7 +348,7 @@ fn big_nk() -> impl Strategy<Value = (u64, u64)> {
 
 pub fn run(run: &mut Run) {
     run.technique = "bounded exhaustive enumeration of all (n,k) up to a bound x level grid x kinds x front-ends + proptest random (n,k) up to 2^64; oracle = closed-form Wilson roots with an independent normal quantile, score-equation residual, Wald formula, integer domain rules, bit-equality across front-ends".into();
-    run.rule = "every (n,k), 0 <= k <= n+1, n <= N (quick 600, thorough 4000) x 12 levels (1e-12 … 1-1e-8) x 3 kinds through ci_wilson and ci_z_normal; all ten other front-ends for n <= 80 (quick) / 200 (thorough) and sampled beyond; random (n,k) up to usize::MAX with random confidences; is_significant on the whole grid; non-trivial = admissible counts (2 <= k <= n-2, resp. k >= 10 and n-k >= 10 for Wald); each enumerated case is distinct by construction".into();
+    run.rule = "every (n,k), 0 <= k <= n+1, n <= N (quick 600, thorough 4000) x 14 levels (1e-300 … 1-1e-8) x 3 kinds through ci_wilson and ci_z_normal; all ten other front-ends for n <= 80 (quick) / 200 (thorough) and sampled beyond; random (n,k) up to usize::MAX with random confidences; is_significant on the whole grid; non-trivial = admissible counts (2 <= k <= n-2, resp. k >= 10 and n-k >= 10 for Wald); each enumerated case is distinct by construction".into();
     crate::meanref::selftest_into(run);
     let nmax: u64 = run.tier.pick(600, 4000);
     let front_nmax: u64 = run.tier.pick(80, 200);
